@@ -18,6 +18,27 @@ CHECKS = {
             "DESIGN.md 5/C04, 4.1"),
 }
 
+EXPL = ("explicit-state breadth-first search over editing histories, executed on the real classes in lock-step with a "
+        "reference model")
+CHECKS["C09"] = (
+    EXPL,
+    "Explicit-state model checking of the four container classes: BFS over all histories of public editing calls "
+    "(small identifier universe) to a stated depth, every transition executed on a fresh replay of the real object, "
+    "states deduplicated on the raw private containers incl. container types, all public views compared with a dict-based "
+    "reference model in every generated successor, read-only queries checked as self-loops. Reports states, transitions, "
+    "depth and frontier per class and pass.",
+    "Trusted: the reference model (smgverif/model/refgraph.py) and the well-formedness table of DESIGN.md 4.3; bounds: "
+    "3-4 atom identifiers, elements {C,H}, depth per class as reported in the evidence.",
+    "DESIGN.md 3, 5/C09")
+CHECKS["C19"] = (
+    EXPL + "; every ill-formed request injected in every reachable state",
+    "Same explorer as C09; in every reachable state every ill-formed request of the kinds listed in the property "
+    "(unknown atom/bond, self bond, descriptor or change on an unknown centre or on several/no centres, non-element atom "
+    "type, wrong-typed reaction label, deleting atom_type, deleting absent things) and every look-up about absent things "
+    "is executed on the real object: it must raise (ill-formed) and the full normalised snapshot must be identical.",
+    "Trusted: reference model's accept/reject rules (DESIGN.md 4.3); same bounds as C09.",
+    "DESIGN.md 3, 5/C19")
+
 NOT_YET = {
 }
 
